@@ -99,6 +99,7 @@ inductive Out where
   | item (it : Option Item)
   | search (items : List Item) (count : Nat) (lek : Item)
   | pages (ps : List (List Item × Item))
+  | pagesErr (ps : List (List Item × Item)) (err : Option ErrClass) (panicCls : String)   -- a later page failed
   | describe (d : TableDesc)
   | batchWrite (unprocessed : List (Bytes × List WriteReq))
   | batchGet (responses : List (Bytes × List Item)) (unprocessed : List (Bytes × List Item))
@@ -386,7 +387,12 @@ def pagesLoop (table : Bytes) (q : Table.Query) (ex : Exprs) (delAfter : Option 
   | 0, _, c, acc => (c, .pages acc.reverse)
   | fuel + 1, n, c, acc =>
     match searchOnce c table q ex with
-    | .error o => (c, o)
+    | .error o =>
+      if acc.isEmpty then (c, o)
+      else match o with
+        | .panicErr cls => (c, .pagesErr acc.reverse none cls)
+        | .err cls _ => (c, .pagesErr acc.reverse (some cls) "")
+        | o => (c, o)
     | .ok (items, lek) =>
       let acc := (items, lek) :: acc
       if lek.isEmpty then (c, .pages acc.reverse)
